@@ -148,7 +148,7 @@ func getCtx(repo string, cfgName string, cache map[string]*Ctx) (*Ctx, error) {
 
 func runProperty(repo string, spec PropSpec, tier string, seed int, dump bool, onlyCfg string, cache map[string]*Ctx) int {
 	start := time.Now()
-	evPath := filepath.Join(verifDir(), "evidence", spec.ID+".json")
+	evPath := filepath.Join(evidenceDir(), spec.ID+".json")
 	fail := func(msg string) int {
 		fmt.Printf("CHECK-FAILED property=%s %s\n", spec.ID, msg)
 		// A framework failure is a failure of the check, reported as a violation
